@@ -778,7 +778,9 @@ def dual_line(q):
         T.append(tuple(tri[m:] + tri[:m]))
     q["T"] = T
     q["pts_scaled"] = pts
-    tolS = 0 if shift else int(TOL * S) + 1
+    # tolerance of D4 (vertex within tolS of its reference point): 0 where the shifted vertex IS the exact sum of three exactly replicated
+    # seeds; otherwise (float circumcentres; centroids of copies p+k that were rounded) the tolerance S uses, on the scale of the vertices
+    tolS = 0 if (shift and q["case"].get("bits")) else int(TOL * S * k) + 1
     q["dual_tolS"] = tolS
     toks = ["dual" + q["line"][4:], hx(tolS), str(n)] + [hx(v) for xy in pts for v in xy] + [str(len(T))]
     for t in T:
